@@ -94,6 +94,9 @@ pub struct Script {
     pub items: Vec<(char, u64)>,
     pub tail: String,
     pub chunk: u64,
+    /// Implement `Stream::size_hint` exactly (number of items still to come), as `stream::iter`
+    /// and friends do, instead of the default `(0, None)`.
+    pub hint: bool,
 }
 
 impl Script {
@@ -102,6 +105,7 @@ impl Script {
             items: Vec::new(),
             tail: "honest".into(),
             chunk: 1 << 20,
+            hint: false,
         }
     }
     pub fn from_json(v: &Value) -> Script {
@@ -122,6 +126,7 @@ impl Script {
             items,
             tail: v.get("tail").and_then(|t| t.as_str()).unwrap_or("honest").to_string(),
             chunk: v.get("chunk").and_then(|c| c.as_u64()).unwrap_or(1 << 20).max(1),
+            hint: v.get("hint").and_then(|h| h.as_bool()).unwrap_or(false),
         }
     }
 }
@@ -279,6 +284,37 @@ impl<D: ChunkData> ScriptedStream<D> {
 
 impl<D: ChunkData> Stream for ScriptedStream<D> {
     type Item = Result<D, BoxError>;
+
+    fn size_hint(&self) -> (usize, Option<usize>) {
+        if !self.script.hint {
+            return (0, None);
+        }
+        if self.finished {
+            return (0, Some(0));
+        }
+        // items still to come: explicit yields / the failure item, then the tail
+        let explicit = self.script.items[self.next_item.min(self.script.items.len())..]
+            .iter()
+            .filter(|(k, _)| *k == 'y' || *k == 'f')
+            .count();
+        let after_items_pos = self.script.items[self.next_item.min(self.script.items.len())..]
+            .iter()
+            .filter(|(k, _)| *k == 'y')
+            .fold(self.pos, |p, (_, n)| p.saturating_add(*n));
+        let owed = self.end.saturating_sub(after_items_pos);
+        match self.script.tail.as_str() {
+            "honest" | "extra" => {
+                let total = self.end - self.start;
+                let c = self.script.chunk.max(total / 6 + (total % 6 != 0) as u64).max(1);
+                let tail_items = if owed > MAX_HONEST { return (explicit, None); } else { ((owed + c - 1) / c) as usize };
+                let extra = (self.script.tail == "extra" && !self.extra_done) as usize;
+                (explicit + tail_items + extra, Some(explicit + tail_items + extra))
+            }
+            "fail" => (explicit + 1, Some(explicit + 1)),
+            "stall" => (explicit, None),
+            _ => (explicit, Some(explicit)),
+        }
+    }
 
     fn poll_next(mut self: Pin<&mut Self>, cx: &mut Context<'_>) -> Poll<Option<Self::Item>> {
         let this = &mut *self;
